@@ -21,6 +21,7 @@ import hashlib
 import json
 import os
 import shutil
+import time
 from concurrent.futures import ThreadPoolExecutor
 
 import vf
@@ -44,9 +45,9 @@ BUILDS = [dict(name="ripser_harness_f", src="ripser_harness.cpp"),
           dict(name="ripser_harness_k", src="ripser_harness.cpp", defines=("GUDHI_FORCE_FAKE_UINT128",))]
 BUILD_NAMES = ["float", "double", "float+fallback_uint128"]
 # recorded traces: build index -> (kind, events, max_simplices)
-QUICK_TRACES = {0: [("dense", 250, 300), ("sparse", 200, 300), ("boundary", 12, 300), ("wide", 60, 300), ("deep", 15, 300)],
-                1: [("dense", 250, 300), ("sparse", 200, 300), ("wide", 60, 300)],
-                2: [("dense", 60, 300), ("sparse", 150, 300), ("wide", 100, 300), ("deep", 30, 300)]}
+QUICK_TRACES = {0: [("dense", 200, 300), ("sparse", 200, 300), ("boundary", 12, 300), ("wide", 50, 300), ("deep", 15, 300)],
+                1: [("dense", 200, 300), ("sparse", 150, 300), ("wide", 40, 300)],
+                2: [("sparse", 100, 300), ("wide", 60, 300), ("deep", 30, 300)]}
 THOROUGH_TRACES = {0: [("dense", 1200, 300), ("dense", 250, 700), ("sparse", 1200, 300), ("sparse", 250, 700), ("boundary", 40, 300),
                        ("wide", 300, 300), ("wide", 100, 700), ("deep", 100, 300)],
                    1: [("dense", 1200, 300), ("dense", 250, 700), ("sparse", 1200, 300), ("sparse", 250, 700), ("wide", 300, 300),
@@ -85,10 +86,10 @@ def _log2up(m):
 
 
 def _index_beyond_64_bits(a, enc):
-    """is there a simplex of the Rips complex (<= dmax + 2 vertices) whose encoded index reaches bit 64 + bits(p-1)"""
+    """is there a simplex of the Rips complex (<= dmax + 2 vertices) whose encoded index is >= 2^64"""
     import math
     n, p = a["n"], a["p"]
-    lim = 1 << (64 + _log2up(p - 1))
+    lim = 1 << 64
     bpv = _log2up(n)
     nb = {}
     for u, v, w in a["edges"]:
@@ -203,11 +204,14 @@ def main(tier):
     models = QUICK_MODELS if tier == "quick" else THOROUGH_MODELS
     unknown = []
     tags = []
+    t00 = time.time()
     try:
         with ThreadPoolExecutor(2) as bex, ThreadPoolExecutor(PAR) as pool:
             fb = bex.submit(vf.build_many, BUILDS, 3)
             results = run_models(models, 900 if tier == "quick" else 1150, pool)
+            vf.log("[c11] models done %.0fs" % (time.time() - t00))
             bins = fb.result()
+            vf.log("[c11] builds done %.0fs" % (time.time() - t00))
 
         # ---- the bounded model: every case on the real code
         cases_path = os.path.join(work, "cases.ndjson")
@@ -237,6 +241,7 @@ def main(tier):
         outs = [os.path.join(work, "cases_out_%d_%d.ndjson" % (k, i)) for k, (b, i) in enumerate(runs)]
         vf.run_parallel([[b, "cases", cases_path, outs[k], str(i), str(PAR)] for k, (b, i) in enumerate(runs)], par=PAR,
                         timeout=1000, ok_codes=(0, 3))
+        vf.log("[c11] cases replayed %.0fs" % (time.time() - t00))
         summ = {"cases": 0, "subcases": 0, "evaluations": 0, "deviations": 0, "deviations_dropped": 0,
                 "skipped_after_repeated_crash": 0, "pairs_reported": 0, "zero_length_pairs_reported": 0}
         forms, encs = {}, {}
@@ -279,10 +284,12 @@ def main(tier):
             if r.returncode == 3:
                 unknown.append({"kind": "crash", "where": "ripser_harness record", "file": p,
                                 "last": (open(p).read().splitlines() or [""])[-1][:1500]})
+        vf.log("[c11] traces recorded %.0fs" % (time.time() - t00))
         good = [(i, p) for i, ((p, c), r) in enumerate(zip(jobs, recs)) if r.returncode == 0]
         tags = ["rips-trace-%d-%d" % (i, os.getpid()) for i, _ in good]
         with ThreadPoolExecutor(PAR) as ex:
             infos = list(ex.map(lambda ip: validate(ip[1], "rips-trace-%d-%d" % (ip[0], os.getpid()), 1100), good))
+        vf.log("[c11] traces validated %.0fs" % (time.time() - t00))
         nevents = nruns = 0
         ev_hash = set()
         accepted_files = 0
